@@ -1,5 +1,6 @@
 import AioModel.Wire
 import AioModel.C18
+import AioModel.C18Ws
 /-! Driver commands of property C18.
 `run k=v … @t:ev;ev @t:ev …` → one line of canonical observables (see harness/c18.py). -/
 namespace Aio.Driver.C18
@@ -84,6 +85,23 @@ def handle : List String → String
       let s := observe cfg (run cfg (init co) tl)
       render cfg s
     | _, _ => "bad-op"
+  | ["ws", kind, a1, a2, recv, tc, peer, cancel] =>
+    -- kind: default | obj <recv> <close> | float <close> -
+    let arg : Option WsArg :=
+      if kind == "default" then some .default
+      else if kind == "obj" then (do let r ← optNat a1; let c ← optNat a2; pure (.obj ⟨r, c⟩))
+      else if kind == "float" then a1.toNat?.map .legacy
+      else none
+    match arg, optNat recv, tc.toNat?, optNat peer, optNat cancel with
+    | some arg, some recv, some tc, some peer, some cancel =>
+      let w := effWs arg recv
+      let o := match wsClose w tc peer cancel with
+        | .closedOk t => s!"closed@{t} code=1000"
+        | .closedAbnormal t => s!"closed@{t} code=1006"
+        | .cancelled t => s!"E_CANCELLED@{t} code=-"
+        | .pending => "pending@-1 code=-"
+      s!"recv={showOptNat w.recv} close={showOptNat w.close} r={o}"
+    | _, _, _, _, _ => "bad-op"
   | ["ceil", kind, now, d] =>
     match now.toNat?, d.toNat? with
     | some now, some d =>
